@@ -2,6 +2,7 @@
 from vlib.defs import Item, Variant, Field, DISABLED, ser, msg, props, raw, doc
 from vlib.run import Corpus
 from vlib import structs as T
+from vlib import gen as G
 from vlib import strings as S
 from vlib import render as RR
 
@@ -90,6 +91,9 @@ def build_corpus(tier, rng):
     items.append(("panicking-default", Item("E", [Variant("Open", "unit"), Variant("Close", "named", [Field("u8", "id")]), Variant("Gone", "tuple", [Field("Boom")], [DISABLED]),
                                                   Variant("Bad", "tuple", [Field("u8"), Field("Boom")]), Variant("Pair", "tuple", [Field("String")]), Variant("Last", "unit")])))
     items.append(("panicking-default", Item("E", [Variant("A", "unit"), Variant("Gone", "named", [Field("Boom", "b")], [DISABLED]), Variant("B", "tuple", [Field("u8")])])))
+    # every option of the OTHER derives next to `disabled` (before / after it, same list / own list): only `disabled` matters here
+    for it in G.foreign_option_items(rng, 120 if thorough else 36):
+        items.append(("foreign-options", it))
     for fam, it in items:
         k = c.add_def(it, family=fam, derives=["EnumIter", "EnumCount"])
         n = len(it.variants)
